@@ -172,6 +172,7 @@ func (c *channel) ID() int64 {
 // Write a message through the Pipeline
 func (c *channel) Write(message Message) error {
 	if !c.IsActive() {
+		verifPoint(c, "write.closing")
 		select {
 		case <-c.ctx.Done():
 			return c.closeErr
@@ -194,19 +195,24 @@ func (c *channel) Trigger(event Event) {
 // Close through the Pipeline
 func (c *channel) Close(err error) {
 	if atomic.CompareAndSwapInt32(&c.closed, 0, 1) {
+		verifPoint(c, "close.won")
 
 		// wait async send finished.
 		if nil != c.writeQueue {
 			var maxWaitNum int
 			for (c.untilWrite || maxWaitNum < 10) && atomic.LoadInt32(&c.running) != idle {
+				verifPoint(c, "close.wait")
 				maxWaitNum++
 				time.Sleep(time.Millisecond * 100)
 			}
 		}
 
+		verifPoint(c, "close.beforeTransportClose")
 		c.closeErr = err
 		c.transport.Close()
+		verifPoint(c, "close.beforeCancel")
 		c.cancel()
+		verifPoint(c, "close.beforeInactive")
 
 		c.invokeMethod(func() {
 			c.pipeline.FireChannelInactive(err)
@@ -226,6 +232,7 @@ func (c *channel) Writev(p [][]byte) (n int64, err error) {
 	}
 
 	// sync write
+	verifPoint(c, "sync.lock")
 	c.writeLock.Lock()
 	defer c.writeLock.Unlock()
 	if n, err = c.transport.Writev(p); nil == err {
@@ -249,6 +256,7 @@ func (c *channel) CtxWrite1(ctx context.Context, p []byte) (n int, err error) {
 	}
 
 	// sync write
+	verifPoint(c, "sync.lock")
 	c.writeLock.Lock()
 	defer c.writeLock.Unlock()
 
@@ -276,6 +284,7 @@ func (c *channel) CtxWritev(ctx context.Context, pv [][]byte) (n int64, err erro
 	}
 
 	// sync write
+	verifPoint(c, "sync.lock")
 	c.writeLock.Lock()
 	defer c.writeLock.Unlock()
 
@@ -349,6 +358,7 @@ func (c *channel) write1(p []byte, clone bool) (n int, err error) {
 	}
 
 	// sync write
+	verifPoint(c, "sync.lock")
 	c.writeLock.Lock()
 	defer c.writeLock.Unlock()
 	if n, err = c.transport.Write(p); nil == err {
@@ -375,6 +385,7 @@ func (c *channel) asyncWrite(ctx context.Context, p []byte, clone bool) (int64, 
 	// put packet to send queue
 	var packet = p
 
+	verifPoint(c, "enqueue.before")
 	if c.untilWrite {
 		select {
 		case <-ctx.Done():
@@ -397,6 +408,7 @@ func (c *channel) asyncWrite(ctx context.Context, p []byte, clone bool) (int64, 
 		}
 	}
 
+	verifPoint(c, "enqueue.after")
 	// try send
 	if atomic.CompareAndSwapInt32(&c.running, idle, running) {
 		c.executor.Exec(c.writeOnce)
@@ -424,6 +436,7 @@ func (c *channel) asyncWritev(ctx context.Context, p [][]byte) (int64, error) {
 	// put packet to send queue
 	var packet = dataBuff[:offset]
 
+	verifPoint(c, "enqueue.before")
 	if c.untilWrite {
 		select {
 		case <-ctx.Done():
@@ -446,6 +459,7 @@ func (c *channel) asyncWritev(ctx context.Context, p [][]byte) (int64, error) {
 		}
 	}
 
+	verifPoint(c, "enqueue.after")
 	// try send
 	if atomic.CompareAndSwapInt32(&c.running, idle, running) {
 		c.executor.Exec(c.writeOnce)
@@ -540,6 +554,7 @@ func (c *channel) readLoop(done func()) {
 		case <-c.ctx.Done():
 			return
 		default:
+			verifPoint(c, "read.next")
 			c.invokeMethod(func() {
 				c.pipeline.FireChannelRead(c.transport)
 			})
@@ -558,6 +573,7 @@ func (c *channel) writeOnce() {
 	}()
 
 	for {
+		verifPoint(c, "send.top")
 		// reuse buffer.
 		sendBuffers := c.writeBuffers[:0]
 		recycleBuffers := c.recycleBuffers[:0]
@@ -580,7 +596,9 @@ func (c *channel) writeOnce() {
 
 		if len(sendBuffers) > 0 {
 
+			verifPoint(c, "send.beforeWritev")
 			utils.AssertLong(c.transport.Writev(sendBuffers))
+			verifPoint(c, "send.afterWritev")
 
 			// clear buffer ref
 			for index, buf := range recycleBuffers {
@@ -598,11 +616,14 @@ func (c *channel) writeOnce() {
 			}
 		}
 
+		verifPoint(c, "send.beforeFlush")
 		// flush transport buffer
 		utils.Assert(c.transport.Flush())
 
+		verifPoint(c, "send.beforeRelease")
 		// double check
 		atomic.StoreInt32(&c.running, idle)
+		verifPoint(c, "send.afterRelease")
 		if size := len(c.writeQueue); size > 0 {
 			if atomic.CompareAndSwapInt32(&c.running, idle, running) {
 				continue
